@@ -35,7 +35,8 @@ META = dict(
                "right_broadcasting both ways: State/StateNdExec.v), for the whole entry-wise toy vocabulary incl. multi-parent functions of weighted parents "
                "(C02_partial_revert_nd); what revert(subset, right_broadcasting) does to such a value — rows, last-axis entries, refusals, the shape-changing "
                "calls torch accepts outside the contract — is proved (C02_nd_*) and compared with 1 588 directed calls on real states inside Coq; "
-               "known finding: a side without weight takes the other side's weight (C02_one_sided_weight_refuted); and the closure condition on the reads follows from the "
+               "former finding, fixed in /repo: a side without weight took the other side's weight (C02_one_sided_weight_old_refuted on the old model instance; "
+               "the rule of the tree under test is recognised on every run, an old-rule tree is reported as a violation); and the closure condition on the reads follows from the "
                "well_typed checker (C02_partial_revert_well_typed, C02_ind_step_well_typed: docs/Compose.md); for other node functions "
                "F_mix stays a hypothesis, validated by execution on multi-parent toy graphs and, bit-for-bit, on the real model graphs; "
                "is_variable_set on a derived variable is exempt from 'as if never proposed' (it reports cache content); the "
@@ -60,7 +61,8 @@ OBLIGATIONS = [
     "C02_nd_select_rows", "C02_nd_weighted_select_rows", "C02_nd_last_axis", "C02_nd_refused_bad_shapes", "C02_nd_refused_by_torch",
     "C02_nd_contract_needs_fit", "C02_nd_contract_is_torch", "C02_nd_contract_keeps_shape", "C02_nd_select_examples",
     # F_mix proved for the n-d toy vocabulary (multi-parent entry-wise functions, weighted parents): no hypothesis on node functions
-    "C02_partial_revert_nd", "C02_partial_revert_nd_rows", "C02_one_sided_weight_refuted",
+    "C02_partial_revert_nd", "C02_partial_revert_nd_rows", "C02_one_sided_weight_old_refuted", "C02_one_sided_weight_now",
+    "C02_nd_repair_same_kind_unchanged", "C02_nd_old_contract_is_old_torch",
 ]
 
 HEADER = ("From Coq Require Import ZArith List Bool.\n"
@@ -1438,7 +1440,9 @@ def replay(run: Run, path: str):
         print(f"x := {c['old']} (forked); x := {c['cur']}; revert({c['mask']}, right_broadcasting={c['rb']})")
         print(f"  -> x = {observed}" + (f"   raised {exc}" if exc else "") + f"   _last_fork cleared: {fork_none}")
         wrong = False
-        if T.select_contract(c["old"], c["cur"], c["mask"], c["rb"]):
+        fill, _ = T.detect_select_fill_variant()
+        print(f"  rule of `_select` for a side without weights on this tree: {fill} ('ones' = fully weighted, the repaired rule; 'other' = the other side's weight)")
+        if T.select_contract(c["old"], c["cur"], c["mask"], c["rb"], "ones"):
             ref = T.select_reference(c["old"], c["cur"], c["mask"], c["rb"])
             got = None if observed is None else {k: observed.get(k) for k in ref}
             print(f"  documented rows: {ref}")
@@ -1447,9 +1451,9 @@ def replay(run: Run, path: str):
         if masked:
             print(f"  entries taken from the side WITHOUT weight that now have weight 0 (index paths): {masked}")
             wrong = True
-        r = run.vm_bad_indices("replay", T.SELECT_HEADER, T.SELECT_CASE_TYPE, [T.select_case_coq(c, observed)], "check_nselect")
-        print("model (nselect_torch / nselect) agrees with the implementation on this call:", r == [])
-        wrong = wrong or bool(r)
+        r = run.vm_bad_indices("replay", T.SELECT_HEADER, T.SELECT_CASE_TYPE, [T.select_case_coq(c, observed, T.CLAIMED_FILL)], "check_nselect")
+        print("model of the code as repaired (nselect_torch / nselect: a side without weights is fully weighted) agrees with the implementation on this call:", r == [])
+        wrong = wrong or bool(r) or fill != T.CLAIMED_FILL
         print("REPLAY", "FAILS" if wrong else "passes")
         return 1 if wrong else 0
     if "shape" in inp:
